@@ -1071,6 +1071,34 @@ EXTERNAL["math.inf"] = float("inf")
 # ----------------------------------------------------------------------------------------------------------- methods of python values
 
 
+class StrExpr(Model):
+    """a string kept as the term that built it (enabled per contract by registry.structured_strings)"""
+
+    def __init__(self, term):
+        self.term = term
+
+    def binop(self, I, op, other, swapped):
+        if not isinstance(op, ast.Add):
+            raise Unsupported("operation on a structured string")
+        return StrExpr(("concat", other, self) if swapped else ("concat", self, other))
+
+    def eq(self, I, other):
+        return isinstance(other, StrExpr) and _term_eq(self.term, other.term)
+
+    def __repr__(self):
+        return "StrExpr%r" % (self.term,)
+
+
+def _term_eq(a, b):
+    if isinstance(a, StrExpr) and isinstance(b, StrExpr):
+        return _term_eq(a.term, b.term)
+    if isinstance(a, Num) and isinstance(b, Num):
+        return (a - b).is_zero()
+    if isinstance(a, (tuple, list)) and isinstance(b, (tuple, list)):
+        return len(a) == len(b) and all(_term_eq(x, y) for x, y in zip(a, b))
+    return a is b or (type(a) is type(b) and not isinstance(a, Model) and a == b)
+
+
 def py_getattr(I, obj, name, node=None):
     if isinstance(obj, list):
         return PyBuiltin("list." + name, _list_method(obj, name))
@@ -1079,6 +1107,11 @@ def py_getattr(I, obj, name, node=None):
     if isinstance(obj, tuple) and name in ("index", "count"):
         return PyBuiltin("tuple." + name, lambda I_, *a: getattr(obj, name)(*a))
     if isinstance(obj, str):
+        if name in ("format", "join") and getattr(I.registry, "structured_strings", False):
+            # strings built by the function under contract are kept as terms: ("format", template, args, kwargs) / ("join", sep, parts)
+            if name == "format":
+                return PyBuiltin("str.format", lambda I_, *a, **k: StrExpr(("format", obj, tuple(a), tuple(sorted(k.items(), key=lambda kv: kv[0])))))
+            return PyBuiltin("str.join", lambda I_, parts: StrExpr(("join", obj, parts)))
         return PyBuiltin("str." + name, lambda I_, *a, **k: "<str>" if name in ("format", "join") else getattr(obj, name)(*a, **k))
     if isinstance(obj, (set, frozenset, SetVal)):
         return PyBuiltin("set." + name, _set_method(obj, name))
